@@ -52,7 +52,7 @@ def plan(tier, seed):
         out += L.split_plan("unordered:U4x2x2", spaces.shape_pairs(4, 2, min_obj=4), u2, 150,
                             {"family": "unordered", "costs": [lab[1], lab[2]]})
         out += L.split_plan("ordered:O4chainx1x3s", [(sh, None) for sh in spaces.chain_shapes(4)],
-                            [s for s in o3 if s == tuple(sorted(s))], 100, {"family": "ordered", "costs": [lab[0]]})
+                            spaces.subsequence_syntenies(3), 100, {"family": "ordered", "costs": [lab[0]]})
         # 5 object leaves in a chain on one species: four nested ancestors, co-optimal labellings three levels deep
         out += L.split_plan("unordered:U5chainx1x3", [(sh, None) for sh in spaces.chain_shapes(5)], u3, 150,
                             {"family": "unordered", "costs": [lab[0]]})
@@ -65,7 +65,7 @@ def plan(tier, seed):
     out += L.split_plan("ordered:O4x3x2", spaces.shape_pairs(4, 3, min_obj=4), o2, 150,
                         {"family": "ordered", "costs": lab[:5]})
     out += L.split_plan("ordered:O4x2x3s", spaces.shape_pairs(4, 2, min_obj=4),
-                        [s for s in o3 if s == tuple(sorted(s))] + [("b", "a"), ("c", "b"), ("c", "a")], 100,
+                        spaces.subsequence_syntenies(3) + [("b", "a"), ("c", "b"), ("c", "a")], 100,
                         {"family": "ordered", "costs": lab[:2]})
     out += L.split_plan("unordered:U3x3x3", spaces.shape_pairs(3, 3), u3, 150, {"family": "unordered", "costs": lab})
     out += L.split_plan("unordered:U4x3x2", spaces.shape_pairs(4, 3, min_obj=4), u2, 150,
